@@ -28,9 +28,10 @@ import Hertz.Driver.C06g
 import Hertz.Driver.C03p
 import Hertz.Driver.C14Api
 import Hertz.Driver.C01Net
+import Hertz.Driver.C15N
 open Hertz.Driver
 
-def handlers : List Handler := [C17.handle, C17u.handle, C17x.handle, C07.handle, H1.handle, C04.handle, C05.handle, C05Api.handle, C06.handle, C08.handle, C09.handle, C10.handle, C11.handle, C12.handle, C13.handle, C14.handle, C15.handle, C16.handle, C18.handle, C19.handle, C20.handle, C02x.handle, C13m.handle, C11s.handle, C06g.handle, C03p.handle, C14Api.handle, C01Net.handle]
+def handlers : List Handler := [C17.handle, C17u.handle, C17x.handle, C07.handle, H1.handle, C04.handle, C05.handle, C05Api.handle, C06.handle, C08.handle, C09.handle, C10.handle, C11.handle, C12.handle, C13.handle, C14.handle, C15.handle, C16.handle, C18.handle, C19.handle, C20.handle, C02x.handle, C13m.handle, C11s.handle, C06g.handle, C03p.handle, C14Api.handle, C01Net.handle, C15N.handle]
 
 /-- `seg:<op> args… =REF= ref…` : one delivery of bytes whose whole (unsplit) delivery gave `ref` on the implementation.
 The inner op is handled as usual; in addition the implementation's output must equal `ref` — independence from the
